@@ -485,3 +485,55 @@ def pairs(case, rng):
     except Exception as e:
         out.append(("__transform_error__", {"name": "extra_spaces", "err": repr(e)[:200]}, None))
     return out
+
+
+def constructed_nested(rng, nprng):
+    """Pairs built from scratch for the nested '->' and ',' rule (G's random structures rarely share a prefix
+    and suffix between input and output): 'P [X -> Y] S' == 'P [X] S -> P [Y] S', 'P (X , Y -> Z) S' == ..."""
+    names = ["a", "b", "c", "d", "e", "f", "g", "h"]
+    rng.shuffle(names)
+    sz = {n: rng.choice([1, 2, 2, 3, 4]) for n in names}
+    P = names[: rng.randint(0, 2)]
+    S = names[2: 2 + rng.randint(0, 2)]
+    u, v, w = names[4], names[5], names[6]
+    pre = " ".join(P)
+    suf = " ".join(S)
+
+    def join(*parts):
+        return " ".join(x for x in parts if x)
+
+    def shape(axes):
+        return tuple(sz[n] for n in axes)
+
+    def data(axes):
+        return nprng.integers(-4, 9, size=shape(axes)).astype(np.float64)
+
+    def mk(fn, desc, tensors, kwargs=None):
+        return {"fn": fn, "desc": desc, "tensors": tensors, "kwargs": kwargs or {}, "opts": {}, "post": None}
+
+    out = []
+    kind = rng.choice(["reduce", "preserve", "id-flat", "elementwise-comma", "get_at-comma", "argmax"])
+    if kind == "reduce":
+        op = rng.choice(["sum", "max", "prod", "mean"])
+        x = data(P + [u, v] + S)
+        out.append(("nested-arrow", mk(op, join(pre, f"[{u} ->]", v, suf), [x]), mk(op, f"{join(pre, f'[{u}]', v, suf)} -> {join(pre, v, suf)}", [x])))
+    elif kind == "preserve":
+        op = rng.choice(["softmax", "flip", "sort"])
+        x = nprng.permutation(int(np.prod(shape(P + [u] + S)))).reshape(shape(P + [u] + S)).astype(np.float64)
+        out.append(("nested-arrow", mk(op, join(pre, f"[{u} -> {u}]", suf), [x]), mk(op, f"{join(pre, f'[{u}]', suf)} -> {join(pre, f'[{u}]', suf)}", [x])))
+    elif kind == "id-flat":
+        x = data(P + [u, v] + S).reshape(shape(P) + (sz[u] * sz[v],) + shape(S))
+        out.append(("nested-arrow", mk("id", join(pre, f"({u} {v} -> {v} {u})", suf), [x], {u: sz[u]}), mk("id", f"{join(pre, f'({u} {v})', suf)} -> {join(pre, f'({v} {u})', suf)}", [x], {u: sz[u]})))
+    elif kind == "elementwise-comma":
+        op = rng.choice(["add", "multiply", "subtract", "maximum"])
+        x, y = data(P + [u] + S), data(P + [v] + S)
+        out.append(("nested-comma", mk(op, join(pre, f"({u}, {v} -> {u} {v})", suf), [x, y]), mk(op, f"{join(pre, f'({u})', suf)}, {join(pre, f'({v})', suf)} -> {join(pre, f'({u} {v})', suf)}", [x, y])))
+    elif kind == "get_at-comma":
+        x = data(P + [u] + S)
+        idx = nprng.integers(0, sz[u], size=shape(P + S))
+        out.append(("nested-comma", mk("get_at", join(pre, f"[{u}, ->]", suf), [x, idx]), mk("get_at", f"{join(pre, f'[{u}]', suf)}, {join(pre, suf)} -> {join(pre, suf)}", [x, idx])))
+    else:
+        op = rng.choice(["argmax", "argmin"])
+        x = nprng.permutation(int(np.prod(shape(P + [u, v] + S)))).reshape(shape(P + [u, v] + S)).astype(np.float64)
+        out.append(("nested-arrow", mk(op, join(pre, f"[{u} {v} -> 2]", suf), [x]), mk(op, f"{join(pre, f'[{u} {v}]', suf)} -> {join(pre, '[2]', suf)}", [x])))
+    return out
